@@ -64,6 +64,12 @@ type clause struct {
 	bytecode bytecode
 }
 
+// sibling checks if c and d are compiled from the same clause term with a disjunctive body.
+func (c clause) sibling(d clause) bool {
+	_, ok := c.raw.(Compound)
+	return ok && id(c.raw) == id(d.raw)
+}
+
 func compileClause(head Term, body Term, env *Env) (clause, error) {
 	var c clause
 	c.compileHead(head, env)
